@@ -124,6 +124,12 @@ pub struct Recorder {
 }
 
 fn copy_params(p: &anstyle_parse::Params, problem: &mut Option<String>) -> Vec<Vec<u16>> {
+    // (a parameter list holds at most 32 values: an iterator that is still going after 200 items never ends, and none
+    // of the unbounded operations below may be tried on it)
+    if p.iter().take(200).count() >= 200 {
+        *problem = Some("Params::iter() does not terminate (200 items and still going)".to_string());
+        return p.iter().take(40).map(|g| g.to_vec()).collect();
+    }
     let v: Vec<Vec<u16>> = p.iter().map(|g| g.to_vec()).collect();
     let total: usize = v.iter().map(|g| g.len()).sum();
     if total != p.len() {
